@@ -242,7 +242,7 @@ pub fn run(opts: &Opts) -> Report {
     crate::props::committed_replays(&b, opts, &mut rep);
     run_sub(&a, opts, opts.tier.pick(20_000, 400_000), &mut rep);
     run_sub(&b, opts, opts.tier.pick(4000, 80_000), &mut rep);
-    crate::props::cli::c19(opts, &mut rep, opts.tier.pick(6, 150));
+    crate::props::cli::c19(opts, &mut rep, opts.tier.pick(40, 600));
     rep
 }
 
